@@ -48,6 +48,9 @@ func isKeyType(t reflect.Type) bool {
 	case reflect.Ptr:
 		_, ok := t.MethodByName("ComplexKeyEquals")
 		return ok
+	case reflect.Struct:
+		_, ok := t.MethodByName("IsCustomTyperef")
+		return ok
 	}
 	return false
 }
